@@ -552,12 +552,14 @@ func (c *Ctx) adp9() {
 		}) >= 0
 		if goesOn && built {
 			cov := get("non-empty-list⇒its-counters-installed")
+			// (a list counts as pending unless the path has established that
+			// it is empty: skipping the installation needs the proof)
 			switch {
-			case nonEmpty[listALO] && stored["acceptN:atLeastOnce"] == nil:
-				cov.fail(p, len(p.Events)-1, "at-least-once PUBLISH records are pending on this path, yet the at-least-once counters are not installed: nothing is retransmitted and the placeholders never complete")
-			case (nonEmpty[listEO] || nonEmpty[listREL]) && stored["acceptN:exactlyOnce"] == nil:
-				cov.fail(p, len(p.Events)-1, "exactly-once records are pending on this path (PUBLISH: %v, PUBREL: %v), yet the exactly-once counters are not installed: nothing is retransmitted and the placeholders never complete", nonEmpty[listEO], nonEmpty[listREL])
-			case nonEmpty[listALO] || nonEmpty[listEO] || nonEmpty[listREL]:
+			case !empty[listALO] && stored["acceptN:atLeastOnce"] == nil:
+				cov.fail(p, len(p.Events)-1, "at-least-once PUBLISH records can be pending on this path (known non-empty: %v), yet the at-least-once counters are not installed: nothing is retransmitted and the placeholders never complete", nonEmpty[listALO])
+			case (!empty[listEO] || !empty[listREL]) && stored["acceptN:exactlyOnce"] == nil:
+				cov.fail(p, len(p.Events)-1, "exactly-once records can be pending on this path (PUBLISH list known empty: %v, PUBREL list known empty: %v), yet the exactly-once counters are not installed: nothing is retransmitted, the placeholders never complete and the next publish reuses an identifier in flight", empty[listEO], empty[listREL])
+			default:
 				cov.pass()
 			}
 		}
